@@ -127,7 +127,7 @@ func parseGroup(ms, ts string) *Group {
 			if len(f) > 2 {
 				m.UD.Kind = f[2]
 			}
-			if len(f) > 3 {
+			if len(f) > 3 && m.UD.Kind != "-" { // no user data: no claims
 				m.UD.Parts = parseTPs(f[3])
 			}
 			g.Members = append(g.Members, m)
